@@ -30,7 +30,9 @@ RULE = ('fixed corpus of boundary scripts (each class alone, RHS-then-LHS, every
         'compared with the model, judged by the oracle, and (every third history) with the same step run alone in a pristine process.')
 TRUSTED = ['extraction of the parser and class-building models to OCaml (ExtrOcamlBasic + ExtrOcamlString only) and coq/Extract/Build/driver.ml',
            'harness/build_common.py, harness/parser_common.py (encoders, driver runner, script generators)']
-ASSUMPTIONS = ['scripts are Latin-1 strings; str.format fields outside the modelled fragment are skipped (PUnmodelled)',
+ASSUMPTIONS = ['K is stricter than the oracle: it also compares the exception class of rejected malformed scripts, FUNCTION/KEYWORD '
+               'symbols and per-symbol lags/leads, which the property does not constrain (such a difference alone ends as no-failing-input-found)',
+               'scripts are Latin-1 strings; str.format fields outside the modelled fragment are skipped (PUnmodelled)',
                'the theorems are stated over statements given as term lists (what parse_terms returns for the two sides); that the lexer '
                'produces the terms written in the script is property C01; K runs the whole pipeline from the script text',
                'span labels are distinct (locate(span[i]) = i); exec of the generated class text is CPython\'s (observed, not modelled)',
@@ -97,6 +99,9 @@ def expectation(ast):
     # differ by spacing around '=' — the property only speaks about *different* equations
     same_twice = len([e[0][1] for e in ast]) != len(set(e[0][1] for e in ast)) and not double
     exp = {'fn_clash': sorted(fn_clash), 'same_twice': same_twice}
+    # index pairs of token-identical equations (the same equation written twice)
+    canon = [canon_eq(eq) for eq in ast]
+    exp['twins'] = [[i, j] for i in range(len(ast)) for j in range(i + 1, len(ast)) if canon[i] == canon[j]]
     rej = set()
     if conflict:
         rej.add('SymbolError')
@@ -118,6 +123,27 @@ def expectation(ast):
     return exp
 
 
+SIG_SPACING = 'C03|double-definition|same-equation-different-spacing'
+
+
+def _layout_norm(line):
+    """what the parser's normalisation removes from a statement's layout: runs of blanks -> one, blanks after ( and before )"""
+    import re
+    t = re.sub(r'\s+', ' ', line.strip())
+    t = re.sub(r'\(\s+', '(', t)
+    return re.sub(r'\s+\)', ')', t)
+
+
+def twins_differently_spaced(case, exp):
+    """True iff some equation is written twice with a layout difference that the normalisation does not remove"""
+    lines = [ln for ln in case['script'].split('\n') if ln.strip() and not ln.strip().startswith('#')]
+    twins = exp.get('twins')
+    if twins is None:                                  # corpus entries: statements with equal text up to blanks
+        key = [''.join(ln.split()) for ln in lines]
+        twins = [[i, j] for i in range(len(lines)) for j in range(i + 1, len(lines)) if key[i] == key[j]]
+    return any(i < len(lines) and j < len(lines) and _layout_norm(lines[i]) != _layout_norm(lines[j]) for i, j in twins)
+
+
 def resolve(computed, explicit, floor):
     """the property's reading of the options: explicit replaces, the minimum only raises"""
     if explicit is not None:
@@ -129,7 +155,7 @@ def is_safe(ast):
     return all(t[0] in 'vpen' and not isinstance(t[2] if t[0] != 'n' else None, (list, tuple)) for eq in ast for t in [eq[0]] + eq[1])
 
 
-SPANS = ['list', 'range', 'numpy', 'strings', 'pandas_period', 'pandas_datetime', 'pandas_index']
+SPANS = ['list', 'range', 'numpy', 'strings', 'pandas_period', 'pandas_datetime', 'pandas_index', 'repeated', 'repeated']
 
 
 def make_span(kind, n):
@@ -140,6 +166,8 @@ def make_span(kind, n):
         return range(100, 100 + n)
     if kind == 'strings':
         return ['p%03d' % i for i in range(n)]
+    if kind == 'repeated':                       # labels need not be distinct: the defaults are positions (7cd6323)
+        return ['q%d' % (i // 2) for i in range(n)]
     if kind == 'numpy':
         import numpy as np
         return np.arange(100, 100 + n)
@@ -158,7 +186,8 @@ def impl_one(case):
     import fsic
     o = {}
     try:
-        syms = fsic.parse_model(case['script'], check_syntax=False)
+        # 'cs': the DEFAULT path parse_model(script) (check_syntax=True) for scripts whose code compiles; else check_syntax=False
+        syms = fsic.parse_model(case['script']) if case.get('cs') else fsic.parse_model(case['script'], check_syntax=False)
     except BaseException as e:      # noqa: BLE001 — the class name is the observation
         return {'parse_exc': type(e).__name__}
     o['symbols'] = [[s.name, s.type.name, s.lags, s.leads] for s in syms]
@@ -195,7 +224,9 @@ def impl_one(case):
         for k, name in enumerate(m.names):
             m[name] = np.linspace(0.1, 0.9, n) * (1 + 0.1 * k) if n else m[name]
         try:
-            labels, indexes, _solved = m.solve(max_iter=3, failures='ignore', errors='ignore')
+            kw = dict(max_iter=3, failures='ignore', errors='ignore')
+            kw.update(case.get('solve_kw') or {})
+            labels, indexes, _solved = m.solve(**kw)
             o['solve_labels'] = [int(i) for i in indexes]
             o['solve_labels_match'] = [str(x) for x in labels] == [labels_of[int(i)] for i in indexes]
         except BaseException as e:      # noqa: BLE001
@@ -238,7 +269,10 @@ def _fresh_steps(steps):
             '    os.waitpid(pid, 0)\n'
             '    out.append(json.loads(buf.decode()))\n'
             'print(json.dumps(out))\n') % os.path.dirname(os.path.dirname(os.path.abspath(__file__)))
-    p = subprocess.run([sys.executable, '-c', code], input=_json.dumps(steps), capture_output=True, text=True, timeout=50)
+    try:
+        p = subprocess.run([sys.executable, '-c', code], input=_json.dumps(steps), capture_output=True, text=True, timeout=45)
+    except subprocess.TimeoutExpired:
+        return None                                    # a loaded machine: no fresh replay for this history (not a verdict)
     if p.returncode != 0:
         return {'fresh_error': p.stderr[-300:]}
     return _json.loads(p.stdout.strip().split('\n')[-1])
@@ -354,9 +388,13 @@ def oracle_one(case, o):
     if 'parse_exc' in o:
         cls = o['parse_exc']
         if exp is not None:
-            if 'accept' in exp and not exp.get('same_twice'):
+            spaced = exp.get('same_twice') and cls == 'ParserError' and twins_differently_spaced(case, exp)
+            if spaced and 'accept' in exp:
+                # the only "different equations" are one equation written twice with different spacing: known finding
+                out.append({'sig': SIG_SPACING, 'what': 'the same equation written twice with different spacing is rejected as defined twice'})
+            elif 'accept' in exp:
                 out.append(_f('accepted-script', cls, 'a script without conflicts is rejected with %s' % cls))
-            elif 'reject' in exp and cls not in exp['reject'] and not (exp.get('same_twice') and cls == 'ParserError'):
+            elif 'reject' in exp and cls not in exp['reject'] and not spaced:
                 out.append(_f('rejection-class', cls, 'conflict rejected with %s instead of %s' % (cls, '/'.join(exp['reject']))))
         return out
     # ---- accepted
@@ -426,6 +464,8 @@ def oracle_one(case, o):
                 out.append(_f('default-range', 'infeasible', 'no feasible period, got %r' % (o.get('range', o.get('range_exc')),)))
         if o.get('labels_match') is False or o.get('solve_labels_match') is False:
             out.append(_f('default-range', 'labels', 'the labels returned are not the labels of the span at the returned positions'))
+        if case.get('solve') and not want and n > 0 and o.get('solve_labels'):
+            out.append(_f('default-range', 'solve-infeasible', 'no feasible period, yet solve() returned %r' % (o['solve_labels'],)))
         if case.get('solve') and opts['lags'] is None and opts['leads'] is None:
             if want and n > 0:
                 if o.get('solve_labels') != want:
@@ -557,6 +597,9 @@ CORPUS = [
     ('Y = X\nZ = <Y>[-1]', R('SymbolError')),
     ('Y = X\nY = Z', R('ParserError')), ('Y = X\nZ = W\nY = X + 1', R('ParserError')), ('Y = X\nY[1] = X', R('ParserError')),
     ('Y = X\nY = X', dict(A(['Y'], ['X'], [], []), same_twice=True)),
+    ('Y = X\nY=X', dict(A(['Y'], ['X'], [], []), same_twice=True)),                 # known finding: rejected as defined twice
+    ('Y = X + 1\nZ = Y\nY = X+1', dict(A(['Y', 'Z'], ['X'], [], []), same_twice=True)),
+    ('Y = (X)\nY = ( X )', dict(A(['Y'], ['X'], [], []), same_twice=True)),
     ('Y = X\nY  =  X[0]', dict(A(['Y'], ['X'], [], []), same_twice=True)),
     ('Y = X[-1]', A(['Y'], ['X'], [], [], 1, 0)), ('Y = X[1]', A(['Y'], ['X'], [], [], 0, 1)),
     ('Y = X[-2] + X[3]', A(['Y'], ['X'], [], [], 2, 3)),
@@ -579,7 +622,11 @@ CORPUS = [
     ('Y = Y(1)', R('SymbolError')), ('f = f(X) + 1', R('SymbolError')),
     ('Y = exp(X) + exp(Z) + log(exp(W))\nZ = exp(Y)', A(['Y', 'Z'], ['X', 'W'], [], [])),       # repeated calls: one FUNCTION symbol
     ('{p} = X', R('ParserError')), ('2 = X', R('ParserError')),
+    # unusual left-hand sides (check_syntax=False accepts them): the variable on the left is what the equation assigns
+    ('{a}*Y = X', A(['Y'], ['X'], ['a'], [])), ('log(Y) = X', A(['Y'], ['X'], [], [])), ("Y['2000'] = X", A(['Y'], ['X'], [], [])),
+    ('Y[-1] + {a} = X[2]', A(['Y'], ['X'], ['a'], [], 1, 2)),
 ]
+NOCHECK_ONLY = {'{a}*Y = X', 'log(Y) = X', 'Y[-1] + {a} = X[2]'}      # accepted only with check_syntax=False (the code does not compile)
 LATTICE_SCRIPTS = ['Y = X', 'Y = X[-1] + Z[2]', 'Y = X[-3]\nZ = Y[1]', '']
 
 
@@ -617,7 +664,8 @@ def gen(rng, tier):
     for script, exp in CORPUS:
         need = _need(exp, {})
         for n in sorted({0, 1, need - 1, need, need + 1, 6} - {-1}):
-            cases.append({'script': script, 'ast': None, 'expect': exp, 'opts': {}, 'n': n, 'solve': False})
+            cases.append({'script': script, 'ast': None, 'expect': exp, 'opts': {}, 'n': n, 'solve': False,
+                          'cs': n % 2 == 0 and script not in NOCHECK_ONLY})
         for _ in range(6 if big else 2):
             o = _opts(rng)
             cases.append({'script': script, 'ast': None, 'expect': exp, 'opts': o, 'n': _ns(rng, _need(exp, o)), 'solve': False})
@@ -651,7 +699,8 @@ def gen(rng, tier):
         o = _opts(rng) if rng.random() < 0.6 else {}
         solve = safe and 'lags' not in o and 'leads' not in o and is_safe(ast)
         cases.append({'script': script, 'ast': ast, 'expect': None, 'opts': o, 'n': _ns(rng, _need(exp, o)), 'solve': bool(solve),
-                      'span': rng.choice(SPANS + ['list', 'list'])})
+                      'span': rng.choice(SPANS + ['list', 'list']), 'cs': rng.random() < 0.7,
+                      'solve_kw': rng.choice([None, None, {'min_iter': 2}, {'max_iter': 1}, {'tol': 1e-3, 'min_iter': 1}, {'offset': 0, 'catch_first_error': False}])})
     # histories: several scripts in ONE process, later ones reusing the side texts / names of earlier ones in another role
     def step(ast, compact=True, opts=None):
         ast = json.loads(json.dumps(ast))
